@@ -81,9 +81,10 @@ def stepsOfRest : List (String × List String) → Option (List TextStep)
     | some s, some ss => some (s :: ss)
     | _, _ => none
 
-/-- the regenerated chain as steps: it must start at `io.ReadAll`; `none` = a call the model does not know -/
+/-- the regenerated chain as steps: it must start at `io.ReadAll` of the function's own parameter (the WHOLE file: no
+`io.LimitReader`, no wrapper); `none` = a call the model does not know -/
 def stepsOf : List (String × List String) → Option (List TextStep)
-  | ("io.ReadAll", []) :: rest => stepsOfRest rest
+  | ("io.ReadAll", ["param:0"]) :: rest => stepsOfRest rest
   | _ => none
 
 /-- a front-end as a function of the text of the file: the steps, then the parser (`lex`: what hcl / yaml.v2 and the
